@@ -8,6 +8,7 @@ use crate::translate::{self, translate_opts, Mode, Opts};
 use crate::xml;
 use rayon::prelude::*;
 use serde_json::{json, Value};
+use std::path::Path;
 use std::time::Instant;
 
 const PID: &str = "C07";
@@ -358,6 +359,130 @@ pub fn run_case(ch: &mut Chooser) -> Outcome {
     Outcome::pass(nt).count("translations", 3).with_sample((ch.want_sample && (recovery || semantic)).then(|| json!({"input": src.chars().take(600).collect::<String>()})))
 }
 
+/// Entry of the libFuzzer target (/verif/fuzz): the oracle of `run_case` on one input. A
+/// violation that is not a listed known finding panics, which libFuzzer records as a crash.
+pub fn fuzz_one(src: &str) {
+    static KNOWN: std::sync::OnceLock<Known> = std::sync::OnceLock::new();
+    let known = KNOWN.get_or_init(Known::load);
+    if !translate::parse_terminates(src, translate::PARSE_LIMIT_MS) {
+        return; // known finding c07-parser-library-livelock
+    }
+    if tree_depth(src) > MAX_TREE_DEPTH {
+        return; // known finding c07-stack-exhaustion-deep-nesting (probed through the binary)
+    }
+    for mode in Mode::ALL {
+        if let Some(f) = classify(src, mode).failure {
+            if !known.is_listed_known(PID, &f.key) {
+                panic!("C07 violation {}: {}", f.key, f.what);
+            }
+        }
+    }
+}
+
+/// Thorough tier only: a coverage-guided libFuzzer campaign on the target /verif/fuzz `totality`
+/// (oracle = `fuzz_one`), seeded with generated inputs. Artifacts are confirmed by replaying them
+/// in a child process before they count.
+fn run_fuzz_campaign(env: &Env, known: &Known, rr: &mut RunResult) {
+    use std::process::Command;
+    let tdir = Path::new(VERIF_DIR).join("target/fuzz");
+    let built = Command::new("cargo")
+        .args(["+nightly", "fuzz", "build", "--fuzz-dir", "/verif/fuzz", "--target-dir"])
+        .arg(&tdir)
+        .arg("totality")
+        .env("CARGO_NET_OFFLINE", "true")
+        .current_dir("/verif/fuzz")
+        .output();
+    let exe = tdir.join("x86_64-unknown-linux-gnu/release/totality");
+    if !matches!(&built, Ok(o) if o.status.success()) || !exe.exists() {
+        eprintln!("[qv] C07: the libFuzzer target could not be built; the campaign is skipped (not a verdict)");
+        rr.stats.counters.insert("fuzz_campaign_skipped_build_failed".into(), 1);
+        return;
+    }
+    let work = scratch_dir("c07fuzz");
+    let corpus = work.path().join("corpus");
+    let arts = work.path().join("artifacts");
+    std::fs::create_dir_all(&corpus).unwrap();
+    std::fs::create_dir_all(&arts).unwrap();
+    let seqs = sample_choices(env, PID, "fuzz-corpus", 600, 2500);
+    for (i, c) in seqs.iter().enumerate() {
+        let src = gen_input(&mut Chooser::new(c));
+        if src.len() <= 4096 {
+            let _ = std::fs::write(corpus.join(format!("gen{i}.qml")), src);
+        }
+    }
+    let runs: u64 = std::env::var("QV_FUZZ_RUNS").ok().and_then(|v| v.parse().ok()).unwrap_or(250_000);
+    let jobs = 16;
+    let out = Command::new(&exe)
+        .arg(&corpus)
+        .args([
+            format!("-runs={runs}"),
+            format!("-seed={}", env.seed + 1),
+            "-max_len=4096".into(),
+            "-len_control=0".into(),
+            "-timeout=60".into(),
+            "-rss_limit_mb=6000".into(),
+            "-print_final_stats=1".into(),
+            format!("-artifact_prefix={}/", arts.display()),
+            format!("-jobs={jobs}"),
+            format!("-workers={jobs}"),
+        ])
+        .current_dir(work.path())
+        .output();
+    let mut execs = 0u64;
+    let mut cov = 0u64;
+    for e in std::fs::read_dir(work.path()).into_iter().flatten().flatten() {
+        let name = e.file_name().to_string_lossy().into_owned();
+        if name.starts_with("fuzz-") && name.ends_with(".log") {
+            let log = std::fs::read_to_string(e.path()).unwrap_or_default();
+            for l in log.lines() {
+                if let Some(v) = l.strip_prefix("stat::number_of_executed_units:") {
+                    execs += v.trim().parse::<u64>().unwrap_or(0);
+                }
+                if let Some(p) = l.find(" cov: ") {
+                    if let Some(v) = l[p + 6..].split(' ').next().and_then(|x| x.parse::<u64>().ok()) {
+                        cov = cov.max(v);
+                    }
+                }
+            }
+        }
+    }
+    let _ = out;
+    rr.stats.counters.insert("fuzz_executions".into(), execs);
+    rr.stats.counters.insert("fuzz_edge_coverage".into(), cov);
+    rr.stats.counters.insert("fuzz_seed_corpus_files".into(), std::fs::read_dir(&corpus).map(|d| d.count() as u64).unwrap_or(0));
+    rr.stats.evaluations += execs;
+    // artifacts: confirm each by replay in a child process
+    let mut n_art = 0u64;
+    for e in std::fs::read_dir(&arts).into_iter().flatten().flatten() {
+        n_art += 1;
+        let bytes = std::fs::read(e.path()).unwrap_or_default();
+        let Ok(text) = String::from_utf8(bytes) else { continue };
+        let v = Violation { failure: Failure { key: "c07-fuzz-artifact".into(), what: format!("libFuzzer artifact {}", e.file_name().to_string_lossy()), detail: json!({"input": text}) }, choices: None, part: "fuzz".into() };
+        let file = write_violation(PID, &v);
+        // qv replay: 0 pass, 1 violation, 2 skipped; anything else = the process died
+        let child = Command::new(std::env::current_exe().unwrap()).arg("replay").arg(&file).output();
+        match child {
+            Ok(o) if o.status.code() == Some(0) || o.status.code() == Some(2) => {
+                let _ = std::fs::remove_file(&file);
+            }
+            Ok(o) => {
+                let stderr = String::from_utf8_lossy(&o.stderr);
+                let key = stderr.lines().next().and_then(|l| l.split(':').next()).filter(|k| k.starts_with("c07-")).unwrap_or("c07-fuzz-process-died").to_owned();
+                if known.is_listed_known(PID, &key) {
+                    known.announce(PID, &key);
+                    *rr.stats.known_hits.entry(key).or_default() += 1;
+                    let _ = std::fs::remove_file(&file);
+                } else if rr.violations.len() < 6 {
+                    rr.violations.push(Violation { failure: Failure { key, what: format!("input found by the libFuzzer campaign; replay ended with status {:?}: {}", o.status.code(), stderr.lines().next().unwrap_or("")), detail: json!({"input": text}) }, choices: None, part: "fuzz".into() });
+                    let _ = std::fs::remove_file(&file);
+                }
+            }
+            Err(_) => {}
+        }
+    }
+    rr.stats.counters.insert("fuzz_artifacts".into(), n_art);
+}
+
 /// the real binary: exit status 0 or 1 only, no panic message
 fn check_cli(src: &str) -> Result<(), Failure> {
     let dir = scratch_dir("c07");
@@ -438,6 +563,9 @@ pub fn run(env: &Env, known: &Known, started: Instant, replayed: u64, replay_vio
     }
     rr.stats.counters.insert("runs_of_the_real_binary".into(), cli_runs);
     translate::remove_foreign_types_file();
+    if env.tier == Tier::Thorough {
+        run_fuzz_campaign(env, known, &mut rr);
+    }
     let ev = Evidence {
         env, pid: PID, level: "exploration",
         rule: "three input families, each translated in all three dynamic-binding modes through the preview path (semantic passes run even on trees with ERROR/MISSING nodes): (1) well-formed documents from every generator of this framework (object trees with the whole binding catalogue, planted faults, generated programs); (2) the same with 1-4 token-level mutations (delete/duplicate/swap/replace/insert a token, delete/duplicate a balanced span, truncate also inside a token, splice two documents, identifier -> keyword/this/null/type name, BOM/CR/NUL/astral/unterminated strings and comments, very long identifiers, nesting up to depth 64); (3) token soup from the QML/JS vocabulary. Oracle: no panic anywhere (parse, syntax-error collection, build, XML serialisation, header writing, rendering of every diagnostic with codespan); outcome is output or >= 1 syntax error or >= 1 error diagnostic; every diagnostic and label range satisfies start <= end <= len on char boundaries; serialised output is well-formed. The search runs in child processes (per-case watchdog 10 s, memory limit), so stack exhaustion, runaway allocation or a hang is a violation, not a dead harness. A sample and two deep-nesting probes go through the real binary: exit status 0 or 1, no panic text. Non-trivial = input with a syntax error on which the semantic passes ran, or well-formed input with a semantic diagnostic; distinct by text hash.",
